@@ -294,4 +294,99 @@ theorem groupEdges_adjacent (rp : List BP) (gs1 : List (List BP)) (g g' : List B
       apply List.mem_append_right
       exact ih (rp := g0.reverse ++ rp)
 
+theorem exists_group {l : List BP} {x : BP} (hx : x ∈ l) : ∃ g ∈ groupsOf l, x ∈ g := by
+  induction l with
+  | nil => simp at hx
+  | cons a r ih =>
+    unfold groupsOf
+    rcases List.mem_cons.mp hx with rfl | hx
+    · split
+      · rename_i b g0 gs heq
+        split
+        · exact ⟨x :: b :: g0, by simp, by simp⟩
+        · exact ⟨[x], by simp, by simp⟩
+      · exact ⟨[x], by simp, by simp⟩
+    · obtain ⟨g, hg, hxg⟩ := ih hx
+      split
+      · rename_i b g0 gs heq
+        rw [heq] at hg
+        split
+        · rcases List.mem_cons.mp hg with rfl | hg
+          · exact ⟨a :: b :: g0, by simp, List.mem_cons_of_mem _ hxg⟩
+          · exact ⟨g, by simp [hg], hxg⟩
+        · exact ⟨g, by simp [hg], hxg⟩
+      · exact ⟨g, by simp [hg], hxg⟩
+
+/-- on a sorted breakpoint list: two breakpoints at different positions with no breakpoint strictly
+    between them are joined by an edge, unless a connector end point's flag forbids it -/
+theorem lineEdges_adjacent {bps : List BP} (h : SortedBP bps) {a b : BP} (ha : a ∈ bps) (hb : b ∈ bps)
+    (hab : a.t < b.t) (hno : ∀ c ∈ bps, ¬ (a.t < c.t ∧ c.t < b.t))
+    (h1 : a.k.isConn = true → a.up = true) (h2 : b.k.isConn = true → b.dn = true) :
+    (a, b) ∈ lineEdges bps := by
+  have ok := groupsOf_ok bps h
+  obtain ⟨ga, hga, haga⟩ := exists_group ha
+  obtain ⟨gb, hgb, hbgb⟩ := exists_group hb
+  obtain ⟨s, t, hst⟩ := List.append_of_mem hga
+  have hinc := ok.inc
+  rw [hst] at hinc hgb
+  obtain ⟨_, hinc2, hcross⟩ := List.pairwise_append.mp hinc
+  obtain ⟨hat, hinct⟩ := List.pairwise_cons.mp hinc2
+  rcases List.mem_append.mp hgb with hgb | hgb
+  · have := hcross gb hgb ga (by simp) b hbgb a haga
+    grind
+  rcases List.mem_cons.mp hgb with rfl | hgb
+  · have := ok.uni gb hga a haga b hbgb
+    grind
+  obtain ⟨m, t2, hmt⟩ := List.append_of_mem hgb
+  cases m with
+  | nil =>
+    unfold lineEdges
+    rw [hst, hmt]
+    exact groupEdges_adjacent [] s ga gb t2 a b haga hbgb h1 h2
+  | cons g1 m' =>
+    exfalso
+    have hg1 : g1 ∈ groupsOf bps := by rw [hst, hmt]; simp
+    have hne := ok.ne g1 hg1
+    obtain ⟨c, hc⟩ := List.exists_mem_of_ne_nil g1 hne
+    have hcb : c ∈ bps := mem_groupsOf hg1 hc
+    have h1' : a.t < c.t := hat g1 (by rw [hmt]; simp) a haga c hc
+    rw [hmt] at hinct
+    have h2' : c.t < b.t := (List.pairwise_cons.mp hinct).1 gb (by simp) c hc b hbgb
+    exact hno c hcb ⟨h1', h2'⟩
+
+/-! ### flags of the breakpoints -/
+
+theorem dirsX_up {conns : List Conn} {i : Nat} (h : (dirsX conns (.conn i)).2 = true) :
+    ∃ c, conns[i]? = some c ∧ c.d.right = true := by
+  cases hc : conns[i]? with
+  | none => simp [dirsX, hc] at h
+  | some c => simp [dirsX, hc] at h; exact ⟨c, rfl, h⟩
+
+theorem dirsX_dn {conns : List Conn} {i : Nat} (h : (dirsX conns (.conn i)).1 = true) :
+    ∃ c, conns[i]? = some c ∧ c.d.left = true := by
+  cases hc : conns[i]? with
+  | none => simp [dirsX, hc] at h
+  | some c => simp [dirsX, hc] at h; exact ⟨c, rfl, h⟩
+
+theorem dirsY_up {conns : List Conn} {i : Nat} (h : (dirsY conns (.conn i)).2 = true) :
+    ∃ c, conns[i]? = some c ∧ c.d.down = true := by
+  cases hc : conns[i]? with
+  | none => simp [dirsY, hc] at h
+  | some c => simp [dirsY, hc] at h; exact ⟨c, rfl, h⟩
+
+theorem dirsY_dn {conns : List Conn} {i : Nat} (h : (dirsY conns (.conn i)).1 = true) :
+    ∃ c, conns[i]? = some c ∧ c.d.up = true := by
+  cases hc : conns[i]? with
+  | none => simp [dirsY, hc] at h
+  | some c => simp [dirsY, hc] at h; exact ⟨c, rfl, h⟩
+
+theorem toBPs_flags {dirs : VK → Bool × Bool} {l : List LV} {a : BP} (h : a ∈ toBPs dirs l) :
+    a.dn = (dirs a.k).1 ∧ a.up = (dirs a.k).2 := by
+  unfold toBPs at h
+  obtain ⟨q, _, rfl⟩ := List.mem_map.mp h
+  exact ⟨rfl, rfl⟩
+
+theorem lines_conns (s : Scene) : s.lines.conns = s.fixDirs := rfl
+
+
 end AdaptaVerif.Lemmas.OrthVis
